@@ -658,6 +658,7 @@ pub struct MCache<F: Family> {
     sets: Vec<Rc<Vec<u32>>>,
     set_idx: HashMap<Rc<Vec<u32>>, u32>,
     memo: HashMap<(u32, Ev<F::Res>), u32>,
+    en: HashMap<(u32, u8), bool>,
     pub init_set: u32,
 }
 
@@ -671,6 +672,7 @@ impl<F: Family> MCache<F> {
             sets: Vec::new(),
             set_idx: HashMap::new(),
             memo: HashMap::new(),
+            en: HashMap::new(),
             init_set: 0,
         };
         let i = c.intern(g_init(p));
@@ -723,9 +725,17 @@ impl<F: Family> MCache<F> {
         rc
     }
 
-    /// able to progress in the ordinary sense
+    /// Able to progress in the ordinary sense *under the discipline Shuttle documents* (strict
+    /// model): return values are judged against the loose (contract-only) relation, but "which tasks
+    /// can run now" must not assume freedoms the implementation documents it does not take (e.g.
+    /// a blocked sender overtaking the head of the FIFO queue).
     pub fn enabled(&mut self, p: &Program<F>, s: u32, t: usize) -> bool {
-        self.raw(p, s, t).iter().any(|tr| !tr.spurious)
+        if let Some(b) = self.en.get(&(s, t as u8)) {
+            return *b;
+        }
+        let b = g_steps_raw(p, &self.states[s as usize], t, true).iter().any(|(sp, _, _)| !*sp);
+        self.en.insert((s, t as u8), b);
+        b
     }
 
     /// may spurious completions of `t` be taken in `s`?
